@@ -1,6 +1,7 @@
 import HeimdallModel.Lemmas.Mech
 import HeimdallModel.Lemmas.MechTypes
 import HeimdallModel.Lemmas.MechHistory
+import HeimdallModel.Lemmas.MechTemplate
 import HeimdallModel.Model.Footprint
 import HeimdallModel.Gen.Footprints
 /-!
@@ -505,5 +506,93 @@ example : printed ovStr = printed ovNum ∧ ovStr ≠ ovNum ∧ printed ovOne = 
         (Handed.observed (memoSeq printed lookCat [] [(some 1, some ovOne), (some 1, some ovTwo)]).1) ≠
       some (createAlone lookCat (some 1, some ovTwo)) := by
   decide +kernel
+
+/-! ## Templates are values: what an object renders depends on its own template text only
+
+The template texts of a mechanism (payload, values, headers, cookies, claims, `to`, endpoint headers) are entries of
+its configuration.  `runHist` interleaves `Create…` calls with executions of the objects handed out so far; what an
+execution renders is `ρ (configuration the object stands for at that moment) inputs`, for ANY function `ρ` — there is
+nothing else a rendering could depend on in the model: no table of named templates outside the template, no memo. -/
+
+/-- **Each object renders exactly its own template text, whatever else was created before or after.**  In every
+history of creations and executions on one factory (any requests, for this or other catalogue entries, accepted or
+refused, executions of any objects in between), the record of an execution of the k-th object handed out is what the
+k-th request renders when it is the only request the factory ever sees: `ρ` of the catalogue entry overlaid with the
+request's own `config` (`createAlone`, `c17_create_end_to_end`) and of the inputs. -/
+theorem c17_rendering_depends_on_own_template_only {Inp Out : Type} (ρ : Entries → Inp → Out)
+    (σ₀ : Store Entries Override) (hcl : Closed σ₀) (pre post : List (HEv Inp)) (k : Nat) (inp : Inp)
+    (hcat : ∀ r ∈ reqsOf pre, ∀ q, r.1 = some q → ∃ i : Inst, σ₀.insts[q]? = some i) :
+    (runHist ρ σ₀ [] (pre ++ .exec k inp :: post))[(execsOf pre).length]? =
+      some (k, inp, ((reqsOf pre)[k]?).bind fun r => aloneOut ρ σ₀ r inp) := by
+  have h := runHist_kth ρ σ₀ hcl pre σ₀ [] [] (Extends.refl hcl) (Answers.nil σ₀ σ₀) hcat post k inp
+  simpa using h
+
+/-- the hypothesis at a history over `lookCat` (both header overrides, executions of every earlier object after each
+creation, `ρ` = the configuration itself): every record is the object's own configuration -/
+example : ((reqsOf (Inp := Nat) [.create (some 1, some ovOne), .exec 0 7, .create (some 1, some ovTwo), .exec 0 7]).all
+      fun r => match r.1 with
+        | some q => (lookCat.insts[q]?).isSome
+        | none => true) = true ∧
+    (runHist (fun eff (_ : Nat) => eff) lookCat []
+      [.create (some 1, some ovOne), .exec 0 7, .create (some 1, some ovTwo), .exec 0 7, .exec 1 7, .exec 2 7]).map
+        (fun x => (x.1, x.2.2)) =
+      [(0, some [(("headers", ""), "{\"X-A\":\"1 X-B:2\"}")]), (0, some [(("headers", ""), "{\"X-A\":\"1 X-B:2\"}")]),
+       (1, some [(("headers", ""), "{\"X-A\":\"1\",\"X-B\":\"2\"}")]), (2, none)] := by
+  decide +kernel
+
+/-- **The template package: every template has its own set of named templates.**  In every process that creates
+templates (any texts, declaring any named templates under any names) and renders them in any order, the rendering
+of the k-th template is `renderOwn` of its own source — the output of the process that creates this one template
+and renders it. -/
+theorem c17_template_renders_with_own_definitions (objs : List Tpl.Src) (pre post : List Tpl.TEv) (k : Nat)
+    (inp : Tpl.Inputs) :
+    (Tpl.runOwn objs (pre ++ .render k inp :: post))[(Tpl.rendersOf pre).length]? =
+      some (((objs ++ Tpl.newsOf pre)[k]?).bind fun s => Tpl.renderOwn s inp) ∧
+    ∀ src, Tpl.runOwn [] [.new src, .render 0 inp] = [Tpl.renderOwn src inp] :=
+  ⟨Tpl.runOwn_kth pre objs post k inp, fun _ => rfl⟩
+
+/-- `{{ define "scope" }}read{{ end }}{{ template "scope" . }}` and the same with `admin`: the catalogue prototype
+and a rule-level override that name their template alike -/
+def tplRead : Tpl.Src := [.define "scope" [.lit "read"], .atom (.use "scope")]
+def tplAdmin : Tpl.Src := [.define "scope" [.lit "admin"], .atom (.use "scope")]
+/-- a template that uses a name it does not define -/
+def tplUse : Tpl.Src := [.atom (.lit "s="), .atom (.use "scope")]
+
+/-- the sources are what `parse` reads off the texts -/
+example : Tpl.parse "{{ define \"scope\" }}read{{ end }}{{ template \"scope\" . }}" = some tplRead ∧
+    Tpl.parse "{{define \"scope\"}}admin{{end}}{{template \"scope\"}}" = some tplAdmin ∧
+    Tpl.parse "s={{ template \"scope\" . }}" = some tplUse ∧
+    Tpl.parse "{{ block \"b\" . }}x{{ .Subject.ID }}{{ end }}" = some [.block "b" [.lit "x", .field "Subject.ID"]] ∧
+    Tpl.parse "{{ define \"a\" }}1{{ end }}{{ define \"a\" }}2{{ end }}" = none ∧
+    Tpl.parse "{{ quote .Subject.ID }}" = none := by decide +kernel
+
+/-- own tables: the prototype renders `read` before and after the override was created, the override `admin`, and
+a template that only uses the name fails — whatever else the process has defined -/
+example : Tpl.runOwn [] [.new tplRead, .render 0 (fun _ => ""), .new tplAdmin, .new tplUse, .render 0 (fun _ => ""),
+      .render 1 (fun _ => ""), .render 2 (fun _ => "")] =
+    [some ["read"], some ["read"], some ["admin"], none] := by decide +kernel
+
+/-- **One table of named templates shared by all templates of the process breaks it** (the seeded defect: all
+templates derived from one base template; the definition parsed last wins): after the override has been created the
+prototype renders `admin`, in the other creation order the override renders `read`, and the template that only uses the
+name renders whatever was defined last instead of failing — none of them is the rendering of the object alone -/
+example :
+    Tpl.runShared [] [] [.new tplRead, .render 0 (fun _ => ""), .new tplAdmin, .new tplUse, .render 0 (fun _ => ""),
+      .render 1 (fun _ => ""), .render 2 (fun _ => "")] =
+      [some ["read"], some ["admin"], some ["admin"], some ["s=", "admin"]] ∧
+    (Tpl.runShared [] [] [.new tplAdmin, .new tplRead, .render 0 (fun _ => "")])[0]? ≠
+      (Tpl.runOwn [] [.new tplAdmin, .render 0 (fun _ => "")])[0]? ∧
+    (Tpl.runShared [] [] [.new tplRead, .new tplAdmin, .render 0 (fun _ => "")])[0]? ≠
+      some (Tpl.renderOwn tplRead (fun _ => "")) := by decide +kernel
+
+/-- … and it stays invisible as long as no template declares a named template (why the ordinary templates of the
+stream, and the tests of the repository, cannot see such a change): then the shared table and own tables agree on every
+history -/
+theorem c17_shared_table_invisible_without_definitions (evs : List Tpl.TEv)
+    (hn : ∀ s ∈ Tpl.newsOf evs, Tpl.defsOf s = []) : Tpl.runShared [] [] evs = Tpl.runOwn [] evs :=
+  Tpl.runShared_eq_runOwn_of_no_defs evs [] (fun _ h => by cases h) hn
+
+example : ∀ s ∈ Tpl.newsOf [.new [.atom (.lit "a"), .atom (.field "Subject.ID")], .render 0 (fun _ => "u")],
+    Tpl.defsOf s = [] := by decide +kernel
 
 end Heimdall.Props.C17
